@@ -7,6 +7,7 @@ CASES = [
     # property, trace module, regex => replacement, what is falsified
     ("C01", "TraceProps.tla", r'("e":"Return".*"op":"create".*)"succ":true=>\1"succ":false', "a successful create reported as failed"),
     ("C02", "TraceProps.tla", r'("e":"Return".*)"hdr":(\d+)(.*"succ":true)=>\g<1>"hdr":1\3', "a response header lowered to 1"),
+    ("C02", "TraceTso.tla", r'("e":"TDeal".*)"v":(\d+)=>\g<1>"v":999', "a revision handed out by the allocator"),
     ("C03", "TraceProps.tla", r'("e":"RReturn".*)"kvs":\[\[[^\]]*\]=>\1"kvs":[[1,1,"zz"]', "first key-value of a read replaced"),
     ("C04", "TraceProps.tla", r'("e":"WrapRun".*)"listed_last":true=>\1"listed_last":false', "the last write missing from the list after the ring wrapped"),
     ("C05", "TraceProps.tla", r'("e":"Recv","evs":\[\["[A-Z]+",\d+,)(\d+)=>\g<1>1', "a delivered event's revision"),
